@@ -1,15 +1,15 @@
 (* Subs.v -- `Substitutions` (superset.rs:37-98): an insertion-ordered map from parameter
-   identifiers to values.  [VTerm t] stands for both SubstitutionValue::Type and ::Expr:
-   the root label of [t] tells the sort.  No proofs here. *)
+   identifiers to `SubstitutionValue`s.  No proofs here. *)
 From Coq Require Import List String Bool.
 Import ListNotations.
 From DI Require Import Syntax.
 
-Inductive value := VTerm (t : term) | VIdentity.
+Inductive value := VType (t : term) | VExpr (t : term) | VIdentity.
 
 Definition value_eqb (a b : value) : bool :=
   match a, b with
-  | VTerm x, VTerm y => term_eqb x y
+  | VType x, VType y => term_eqb x y
+  | VExpr x, VExpr y => term_eqb x y
   | VIdentity, VIdentity => true
   | _, _ => false
   end.
@@ -22,7 +22,8 @@ Fixpoint lookup (s : subs) (p : string) : option value :=
   | (q, v) :: s' => if String.eqb q p then Some v else lookup s' p
   end.
 
-Definition subs_new (p : string) (t : term) : subs := [(p, VTerm t)].
+Definition subs_ty (p : string) (t : term) : subs := [(p, VType t)].
+Definition subs_ex (p : string) (t : term) : subs := [(p, VExpr t)].
 Definition subs_identity (p : string) : subs := [(p, VIdentity)].
 
 (* `merge` (superset.rs:77-93): entries of [other] are inserted one by one; an occupied
